@@ -147,7 +147,8 @@ def positions_of(src, tree, rnd, n):
     return out
 
 
-PRECEDERS = ['', ' ', 'f(', 'f (', 'a[', 'q = [', '{', 'd = {1: ', 'f(a,', 'f(a, ', 'y=', 'y = ', 'y += ', 'a+', 'a -', 'a*', 'a**', 'a/', 'a//', 'a%', 'a@',
+PRECEDERS = ['', ' ', 'raise ValueError(1) from ', 'raise a from ', 'def gen(): yield from ', 'def gen(): x = yield from ', 'async def co(): await ',
+             'def gen(): return (yield from ', 'f(', 'f (', 'a[', 'q = [', '{', 'd = {1: ', 'f(a,', 'f(a, ', 'y=', 'y = ', 'y += ', 'a+', 'a -', 'a*', 'a**', 'a/', 'a//', 'a%', 'a@',
              'a<', 'a>', 'a<=', 'a==', 'a!=', 'a&', 'a|', 'a^', 'a>>', '~', '-', 'not ', 'a and ', 'if a:', 'lambda:', 'lambda q:', 'a if b else ',
              'print(a);', 'x = 1;', '(a,', '[a,', 'f(*', 'f(**', 'return ', 'yield ', 'assert ', 'del ', 'raise ', 'with ', 'for q in ', 'while ', 'f"{',
              'a.b(', 'a.b[', 'x: ', 'x:', '@', 'print(\'s\', ', 'a[1:', 'a if ', 'z = y if x else ', 'f(x)(', 'a\t', 'a=\t']
@@ -160,7 +161,7 @@ def synthetic_cases():
     head = 'foo = 1\nfoobar = 2\nclass K:\n    bar = 1\n    baz = 2\nk = K()\na = b = q = d = x = y = z = 0\ndef f(*a, **k): return f\n'
     nl = head.count('\n')
     for p in PRECEDERS:
-        for ident in ('fo', 'foo', 'k.ba', 'k.', 'K.b'):
+        for ident in ('fo', 'foo', 'k.ba', 'k.', 'K.b', 'k.bar', 'foobar'):
             line = p + ident
             out.append((head + line + '\n', (nl + 1, len(line)), 'after:%r' % p))
             if '.' not in ident and len(ident) > 2:
@@ -298,7 +299,12 @@ def w_synthetic(job):
     first = {}
     for src, pos, label in synthetic_cases():
         proj = suppview.project()
-        info, _ = unmarked_info(proj, src.rsplit('\n', 2)[0] + '\n', fn) if False else ({}, None)
+        # when the line is complete Python (the identifier fully typed) the transparency rule applies as well
+        try:
+            ast.parse(src)
+            info, _ = unmarked_info(proj, src, fn)
+        except SyntaxError:
+            info = {}
         sh.case((src, pos), True, {'line': core.plines(src)[pos[0] - 1], 'pos': pos, 'label': label})
         sh.count('synthetic')
         bad = check_position(proj, src, pos, fn, info, sh)
